@@ -56,6 +56,9 @@ ALPHA = {
     # the same through the connection's methods (the session's one long-lived cursor does not see these statements)
     "commit()": ("CALL:commit", {"tx"}, set(), {"tx"}),
     "rollback()": ("CALL:rollback", {"tx"}, set(), {"tx"}),
+    # leaving a `with connection:` block (normally / by an exception) while a transaction is open: neither commits
+    "with_exit": ("WITH:ok", {"tx"}, set(), set()),
+    "with_exit_exc": ("WITH:exc", {"tx"}, set(), set()),
 }
 # deeper histories run in both tiers: a transaction ended by a connection method, then statements the library carries out
 # in several steps on the cursor that began it (every kill point inside them)
@@ -64,6 +67,11 @@ EXPLICIT = [
     ["create_t1", "begin", "insert_t1", "rollback()", "comment_t1"],
     ["begin", "rollback()", "create_t1"],
     ["create_t1", "begin", "insert_t1", "commit()", "rename_t1"],
+    # work that is never committed: a transaction still open when the program ends, with a block left in between
+    ["create_t1", "begin", "insert_t1", "with_exit"],
+    ["create_t1", "begin", "insert_t1", "with_exit_exc"],
+    ["begin", "create_plain", "with_exit"],
+    ["create_t1", "begin", "insert_t1", "failing_select"],
 ]
 QUICK_FIRST = ["create_t1", "create_plain", "create_db2", "begin", "create_schema", "executemany_fail", "failing_select", "fail_create_multi"]
 EXPECT_ERROR = {"failing_select", "executemany_fail", "fail_create_multi", "fail_comment"}
@@ -96,7 +104,7 @@ def histories(depth, tier):
                         continue
                     if tier == "quick" and d == 1 and sid in ("create_plain", "create_schema") and h[0] != "begin":
                         continue
-                    if tier == "quick" and d == 1 and sid == "rollback()":
+                    if tier == "quick" and d == 1 and sid in ("rollback()", "with_exit", "with_exit_exc"):
                         continue
                     if tier == "quick" and d == 1 and (sid == "fail_comment" or (sid == "fail_create_multi" and h[0] not in ("begin", "create_t1"))):
                         continue
@@ -115,6 +123,17 @@ def in_tx_before_last(h):
         elif sid in ("commit", "rollback", "commit()", "rollback()"):
             tx = False
     return tx
+
+
+def open_begin(h):
+    """index of the BEGIN of the transaction that is still open at the end of h, or None"""
+    b = None
+    for i, sid in enumerate(h):
+        if sid == "begin":
+            b = i
+        elif sid in ("commit", "rollback", "commit()", "rollback()"):
+            b = None
+    return b
 
 
 def _dir(tag):
@@ -178,6 +197,7 @@ def clean_node(item, acc: core.Acc, tier):
             "C18.autocommit_is_committed", f"history_has={'+'.join(sorted(set(x for x in h if x in EXPECT_ERROR or x.startswith('executemany')))) or 'plain'},last={last}",
             {"diff_own_vs_committed": _diff(res["pre_exit"], res["own_view"])}, rp,
         )
+    out["reopened"] = strip(obs)
     if mode == "clean":
         out.update(calls=res["calls_last"], log=res.get("log"), obs=strip(obs), reported=(obs or {}).get("reported"))
     acc.nontrivial(("node", tuple(h), mode))
@@ -324,6 +344,24 @@ def run(ctx: core.Ctx):
     modes = ("clean", "exception", "sysexit", "os_exit")
     res = ctx.pmap(clean_node, [(h, m) for h in hs for m in modes], chunk=1, recheck=False)
     nodes = {tuple(r["history"]): r for _, r in res if r["mode"] == "clean"}
+    # Work that was never committed is absent: a history that ends with a transaction still open leaves, after any kind
+    # of exit, exactly what the history cut before that transaction's BEGIN leaves after a clean exit (differential: the
+    # before-exit comparison above cannot see work that was published by something other than a commit).
+    for _, r in res:
+        h = r["history"]
+        b = open_begin(h)
+        if b is None or r.get("broken") or nodes.get(tuple(h[:b]), {}).get("broken", True):
+            continue
+        want = nodes[tuple(h[:b])]["obs"]
+        cls = f"exit={r['mode']},last={h[-1]}"
+        bad = r.get("reopened") != want
+        ctx.acc.member("C18.uncommitted_is_absent", cls, bad)
+        ctx.acc.count("evaluations")
+        if bad:
+            ctx.acc.violation(
+                "C18.uncommitted_is_absent", cls, {"diff_to_history_without_the_open_transaction": _diff(want, r.get("reopened")), "open_transaction": h[b:]},
+                {"history": h, "sql": sqls(h), "exit": r["mode"], "uncommitted_from": b},
+            )
     items = []
     for h in hs:
         n = nodes[tuple(h)]
@@ -367,7 +405,12 @@ def replay(payload):
         return bool(acc.viol)
     h = r["history"]
     acc = core.Acc()
-    if "exit" in r:
+    if "uncommitted_from" in r:
+        got = clean_node((h, r["exit"]), core.Acc(), "quick").get("reopened")
+        want = clean_node((h[: r["uncommitted_from"]], "clean"), core.Acc(), "quick")["obs"]
+        if got != want:
+            acc.violation("C18.uncommitted_is_absent", f"exit={r['exit']},last={h[-1]}", {"diff": _diff(want, got)}, r)
+    elif "exit" in r:
         clean_node((h, r["exit"]), acc, "quick")
     else:
         present = clean_node((h, "clean"), core.Acc(), "quick")
